@@ -128,13 +128,13 @@ func DecodeVisualSampleEntrySR(hdr BoxHeader, startPos uint64, sr bits.SliceRead
 	pos := startPos + 86 // Size of all previous data
 	endPos := startPos + uint64(hdr.Hdrlen) + uint64(hdr.payloadLen())
 	for pos < endPos {
-		box, err := DecodeBoxSR(pos, sr)
+		box, inputSize, err := decodeBoxSRAndInputSize(pos, sr)
 		if err != nil {
 			return nil, fmt.Errorf("error decoding childBox of VisualSampleEntry: %w", err)
 		}
 		if box != nil {
 			b.AddChild(box)
-			pos += box.Size()
+			pos += inputSize // Size in the input (more than box.Size() when a 64-bit size field is not kept)
 		} else {
 			return nil, fmt.Errorf("not childbox of VisualSampleEntry")
 		}
